@@ -360,7 +360,7 @@ func c04Refusals(c *Ctx) {
 		}
 		n := 0
 		for _, b := range f.Blocks {
-			ret, ok := b.Instrs[len(b.Instrs)-1].(*ssa.Return)
+			ret, ok := an.AsReturn(b.Instrs[len(b.Instrs)-1])
 			if !ok || len(ret.Results) != 2 || !an.IsNilConst(an.RetVal(ret, 0)) {
 				continue
 			}
